@@ -407,6 +407,7 @@ CHECKS["C13"] = {
     "assumptions": TRANSPORT_ASSUMPTIONS + ["an application does not send through a Client it is closing (that would dial a new session)"],
     "jobs": [
         {"test": "TestC13Replay", "kind": "plain"},
+        {"test": "TestC13FinishStress", "kind": "plain", "shards": (3, 8), "timeout": (300, 1500), "gomaxprocs": [16, 8, 4, 16, 8, 4, 16, 2]},
         {"test": "TestC13", "kind": "rapid", "shards": 10, "checks": (150, 6000), "timeout": (300, 3000), "gomaxprocs": [1, 2, 4, 16, 2]},
         {"test": "TestC13Real", "kind": "rapid", "shards": 4, "checks": (6, 150), "timeout": (400, 3000), "gomaxprocs": [4, 16], "shrink": (30, 90)},
     ],
